@@ -133,6 +133,14 @@ def run(ctx):
                         continue
                     ctx.bad("R15.1", f, "observes-target-stream:passed-to-%s" % short(nm),
                             "%s hands the caller's stream to %s, which reads its state (format flags, position or buffer)" % (short(f.qual), nm), (f, node.get("ln")), detail={"chain": list(chain)})
+    from .common import fx
+    g = fx(ctx, "observing")
+    kinds = [(k, x) for (k, n, x, e) in stream_uses(g, "s")] if g is not None else []
+    ctx.fixture("R15.1", "observing:tellp", any(k == "observe" and x == "tellp()" for k, x in kinds), True, "tellp() on the target stream recognised")
+    ctx.fixture("R15.1", "observing:copyfmt", any(k == "pass" for k, x in kinds), True, "hand-over of the target stream to copyfmt recognised")
+    g = fx(ctx, "write_only")
+    kinds = [k for (k, n, x, e) in stream_uses(g, "s")] if g is not None else ["missing"]
+    ctx.fixture("R15.1", "write_only", any(k in ("observe", "pass", "missing") for k in kinds), False, "pure insertions stay silent")
     ctx.need("R15.1", "functions receiving the target stream", len(seen), 3)
     ctx.need("R15.1", "insertions into the target stream", nins, 8)
     if not any(o.rule == "R15.1" and o.status == "violated" for o in ctx.obs):
